@@ -427,7 +427,7 @@ def resize(catalog, ratio=None, psfhelper=None):
 
     # if we know the psf from the input catalogue (has_psf), or if it was
     # provided via a psf map then we use that psf.
-    elif psfhelper is not None or has_psf:
+    elif psfhelper is not None:
         for i, src in enumerate(catalog):
             # sources without psf information (e.g. a catalogue without the
             # optional psf columns) are assumed to have the psf of the image
